@@ -567,9 +567,13 @@ class KeyPath(formatting.Formattable):
       if is_int(self.key) and is_int(other.key):
         # Both are ints. Compare numerically so that KeyPath(2) < KeyPath(10).
         return comparison(self.key, other.key)
+      if is_str(self.key) and is_str(other.key):
+        # Both are strs. Compare lexicographically.
+        return comparison(self.key, other.key)
       if is_int_or_str(self.key) and is_int_or_str(other.key):
-        # One is a str; the other is an int or str. Compare lexicographically.
-        return comparison(str(self.key), str(other.key))
+        # One is an int and the other is a str: ints sort before strs, so that
+        # the order stays total and transitive (e.g. 2 < 10 < '15').
+        return comparison(is_str(self.key), is_str(other.key))
       # One or both is a custom key. Delegate comparison to its magic methods.
       return comparison(self.key, other.key)
 
